@@ -757,7 +757,7 @@ class unit_start:
                 c.And(alive, c.Not(svc), present), c.And(c.n_events() == 2, Event.e_kind(e0) == c.ctx.E.event_kind("call"), Event.e_b(e0) == r0.t,
                                                        Event.e_kind(e1) == c.ctx.E.event_kind("register_payload"), Event.e_a(e1) == r0._runners[fl].t)),
             # (whatever the service object is like - also one that is falsy, e.g. an empty container - it is started; only a collected one is not)
-            "a-service-that-is-still-alive-is-started": c.And(*[c.Implies(c.Not(Z.is_none(v.t)), alive) for v in c.ctx.ghost.get("c03_dereferenced", [])]) if getattr(c, "mode", None) == "prove" else True,
+            "a-service-that-is-still-alive-is-started": c.And(*[c.Implies(c.Not(Z.is_none(v.t)), alive) for v in c.ctx.ghost.get("c03_dereferenced", [])]) if (getattr(c, "mode", None) == "prove" and not getattr(c.ctx, "concrete", False)) else True,
             "a-collected-service-is-skipped": c.Implies(c.And(c.Not(alive), c.Not(svc)), c.And(c.no_events(), *[c.ctx.rd(c.new_heap, f) == c.ctx.rd(c.old_heap, f) for f in HEAPS])),
         }
 
@@ -871,7 +871,7 @@ class accept:
     def ensures(c, self, result):
         le = c.view_term(z3.Select(c.ctx.rd(c.new_heap, "$ghost_loop_exc"), 0), TExc(), c.new_heap)
         out = {"returns-only-as-run-returns": c.Or(Z.is_none(le.t), le.isa("KeyboardInterrupt"))}
-        if getattr(c, "mode", None) == "prove":
+        if (getattr(c, "mode", None) == "prove" and not getattr(c.ctx, "concrete", False)):
             out["an-earlier-shutdown-request-is-withdrawn-before-the-accept-loop-is-adopted"] = _request_withdrawn(c)
         return out
 
@@ -1514,7 +1514,7 @@ class unit_init:
         order = [f for f, kind, what in c.ctx.own_stores]
         first_pub = order.index("$mhas") if "$mhas" in order else len(order)
         complete_before = all(f in order[:first_pub] for f in ("service", "flavour", "_started"))
-        return {**({"a-unit-becomes-visible-to-the-polling-cycle-only-once-it-is-complete": bool(complete_before)} if getattr(c, "mode", None) == "prove" else {}),
+        return {**({"a-unit-becomes-visible-to-the-polling-cycle-only-once-it-is-complete": bool(complete_before)} if (getattr(c, "mode", None) == "prove" and not getattr(c.ctx, "concrete", False)) else {}),
                 "refers-to-this-service": REFERENT(self.service.t) == service.t,
                 "carries-this-flavour": self.flavour.t == flavour.t,
                 "not-started-yet": c.Not(Z.Val.b(self._started.t)),
